@@ -43,11 +43,15 @@ Ctor(e) ==
   /\ cls' = Set(cls, Ev.g, fresh) /\ prev' = Set(prev, Ev.g, 0) /\ fresh' = fresh + 1 /\ UNCHANGED snap
 Passive(e) == IsEvent(e) /\ UNCHANGED <<cls, prev, snap, fresh>>
 
-OutputOps == {"next_u32", "next_u64", "fill_bytes", "generate", "jump", "long_jump"}
+(* "skip": a long stretch of the stream drawn through fill_bytes or the native call, of which only a *)
+(* digest of the bytes is recorded; two members of a class that skip the same number of bytes - by   *)
+(* whichever route - must report the same digest (the byte stream is one: C05) and stay together     *)
+OutputOps == {"next_u32", "next_u64", "fill_bytes", "generate", "jump", "long_jump", "skip"}
 SameCall(a, b) == /\ a.e = b.e
                   /\ (Has(a, "n") <=> Has(b, "n")) /\ (Has(a, "n") => a.n = b.n)
+                  /\ (Has(a, "bytes") <=> Has(b, "bytes")) /\ (Has(a, "bytes") => a.bytes = b.bytes)
 Result(ev) == <<IF Has(ev, "ret") THEN ev.ret ELSE "none", IF Has(ev, "ok") THEN ev.ok ELSE "none",
-                IF Has(ev, "obs") THEN ev.obs ELSE "none">>
+                IF Has(ev, "obs") THEN ev.obs ELSE "none", IF Has(ev, "digest") THEN ev.digest ELSE "none">>
 (* an output operation applied to g alone, or mirroring the previous event *)
 TrOutput(e) ==
   /\ IsEvent(e) /\ NoPanic /\ Ev.g \in DOMAIN cls
